@@ -49,7 +49,7 @@ ASSUMPTIONS = [
     "simulated process workers share one interpreter: isolation = pickling + swapping numpy/python RNG state, Settings atol and the physicality-check epsilon",
     "1-qubit systems, <=4 workers per level, <=6 repetitions, <=3 samples; PDF report off (broken on this image for unrelated reasons)",
     "scipy.linalg.kron shim supplied by the harness; single-threaded BLAS; exact float comparison",
-    "probes that are 0 on a correct tree by design: attribute_assigned_by_two_threads / switch_after_conflicting_attribute_write count write-write conflicts between threads on one object's attribute, which the repaired tree does not have (they fire under the seeded changes r8c15a-1, r3c15a-3 and with repair D2 reverted, see selftest/sensitivity_last.txt); crash_survivor_unreadable needs the crash to tear test_setting.pickle itself (the first write) and is reached in the thorough tier",
+    "probes that are 0 on a correct tree by design: attribute_assigned_by_two_threads / switch_after_conflicting_attribute_write count write-write conflicts between threads on one object's attribute, which the repaired tree does not have (they fire under the seeded changes r8c15a-1, r3c15a-3 and with repair D2 reverted, see selftest/sensitivity_last.txt); crash_survivor_unreadable needs the crash to tear test_setting.pickle itself (the first write) and is reached in the thorough tier; schedule_stopped_at_the_yield_cap_undecided counts schedules skipped because a heavy configuration reached the safety cap of 30 million yield points (none in the default seed's tiers)",
 ]
 
 FAULT_KINDS = ["batch_split", "worker_reuse", "proc_reorder", "thread_preempt", "clock_jump_fwd", "clock_jump_back", "global_rng_pollution", "crash_at_file_write", "torn_write", "stale_output_dir", "pollution_inside_run", "worker_started_elsewhere", "task_exception", "disk_full"]
@@ -58,5 +58,5 @@ PROBES = [
     "two_tasks_in_flight_in_threads", "switch_on_hot_line_of_mutator_function", "switch_inside_loss_or_algo_configuration_or_optimize", "switch_inside_composite_system_table_code",
     "batch_with_2plus_tasks_sharing_objects", "worker_reused_with_dirty_global_rng", "backwards_clock_inside_timed_section",
     "H7_verdict_ok", "H7_verdict_ng", "H7_undecided", "H5_decisive", "H5_trivial",
-    "attribute_assigned_by_two_threads", "switch_after_conflicting_attribute_write", "switch_at_disk_io", "two_test_settings_in_one_call", "task_failure_propagated", "crash_survivor_reestimated", "crash_survivor_unreadable", "crash_full_reestimate_returned", "crash_full_reestimate_raised",
+    "attribute_assigned_by_two_threads", "switch_after_conflicting_attribute_write", "switch_at_disk_io", "schedule_stopped_at_the_yield_cap_undecided", "two_test_settings_in_one_call", "task_failure_propagated", "crash_survivor_reestimated", "crash_survivor_unreadable", "crash_full_reestimate_returned", "crash_full_reestimate_raised",
 ]
